@@ -836,7 +836,7 @@ class ktensor:
         other_tensor = other
 
         self.normalize()
-        other_tensor = other_tensor.normalize()
+        other_tensor = other_tensor.copy().normalize()
 
         N = self.ndims
         RA = self.ncomponents
